@@ -8,7 +8,7 @@ from ..nets import mk_pinn, D, unit
 
 INFO = dict(
     bounds=dict(
-        quick="d in 1..3 (advection d=2), Poly(deg 3)+Ridge(H=1) fields, 1..d outputs, with/without t",
+        quick="d in 1..4 (advection d=2), Poly(deg 3)+Ridge(H=1) fields, 1..d outputs, with/without t",
         thorough="d in 1..4 (advection d=2), Poly(deg 3)+Ridge(H<=3), outputs 1..3 (vector Laplacian with u_vec_ndim != d), with/without t"),
     outside=["fields that are not polynomial(deg<=3) + sum_h a_h*phi(w_h.z+b_h) with phi an arbitrary smooth function",
              "floating-point rounding (claims are over the reals)"],
@@ -20,7 +20,7 @@ OPS = ("laplacian", "div", "veclap", "veclap_default", "advection")
 
 def configs(tier):
     out = []
-    dims = (1, 2, 3) if tier == "quick" else (1, 2, 3, 4)
+    dims = (1, 2, 3, 4)
     Hs = (1,) if tier == "quick" else (1, 3)
     for d in dims:
         for with_t in (False, True):
@@ -28,7 +28,7 @@ def configs(tier):
                 out.append(dict(op="laplacian", d=d, t=with_t, H=H, n_out=1))
                 out.append(dict(op="div", d=d, t=with_t, H=H, n_out=d))
                 out.append(dict(op="veclap_default", d=d, t=with_t, H=H, n_out=d))
-                nouts = {1: (2,), 2: (1, 3), 3: (2,), 4: (1,)}[d] if tier == "thorough" else {1: (2,), 2: (3,), 3: (2,)}[d]
+                nouts = {1: (2,), 2: (1, 3), 3: (2,), 4: (1,)}[d] if tier == "thorough" else {1: (2,), 2: (3,), 3: (2,), 4: (1,)}[d]
                 for n_out in nouts:
                     out.append(dict(op="veclap", d=d, t=with_t, H=H, n_out=n_out))
                 if d == 2:
